@@ -349,8 +349,15 @@ def run(ctx):
     for kind, rel, prefix, suffix in KINDS:
         names, ptrs = find_arrays(ctx, prog, kind, rel)
         pm = cpp.PresenceMap(ctx.path(rel))
-        gN, tN = array_tokens(ctx, prog, rel, names, pm)
-        gP, tP = array_tokens(ctx, prog, rel, ptrs, pm)
+        try:
+            gN, tN = array_tokens(ctx, prog, rel, names, pm)
+            gP, tP = array_tokens(ctx, prog, rel, ptrs, pm)
+        except cpp.SpanningEntry as e:
+            chk.ob('P1', '%s:every-row-is-closed-inside-its-own-guard' % kind, False, '%s:%d' % (rel, e.line), names,
+                   'the entry %s is not followed by a comma before the presence condition changes: in a configuration where '
+                   'it is present it merges with the next entry (%s%s is one string literal), so one name fewer is '
+                   'registered than functions and two names become unknown' % (e.sofar.strip(), e.sofar.strip(), e.lit))
+            continue
         registries.append((kind, rel, names, ptrs, pm))
         chk.count('registry_entries[%s]' % kind, len(tP))
         # ---- P1 -------------------------------------------------------------
